@@ -240,12 +240,28 @@ def sector(prog, rep):
     except Unsupported:
         ok = False
     rep.check(ok, "R05.1", "distance-iterator", "DistanceIterator must yield (p, 2p - center_2x, |2p - center_2x|^2) for every point p of its inner iterator", at=dn.span, fn=dn.path)
-    # two copies of one formula
-    a = prog.method1(S, "center_2x", None)
+    # two copies of one formula: compared as polynomial normal forms with every crate-local callee inlined (a sector that
+    # delegates to its circle, destructuring, Size::new_equal vs Size::new make no difference)
+    from rules.c16_tables import nf, canon
+    Pall = Paths(prog, inline=lambda g: True, depth=6)
     b = prog.method1(C, "center_2x", None)
-    sa = family_signature(prog, a)
-    sb = family_signature(prog, b)
-    rep.check(sa == sb, "R05.1", "sector:center_2x", "Sector::center_2x and Circle::center_2x are two copies of one formula and must agree:\n  sector: %s\n  circle: %s" % (sa[:300], sb[:300]), at=a.span, fn=a.path)
+    me = P(1, "self")
+    want = lambda i: ("bin", "Add", ("bin", "Mul", ("field", ("field", me, 0), i), ("const", 2)), ("call", "core::num::<impl u32>::saturating_sub", (), (("field", me, 1), ("const", 1))))
+    fi_s = {f["name"]: i for i, f in enumerate(prog.adts[S]["variants"][0]["fields"])}
+    fi_c = {f["name"]: i for i, f in enumerate(prog.adts[C]["variants"][0]["fields"])}
+    layout_ok = fi_s.get("top_left") == 0 and fi_s.get("diameter") == 1 and fi_c.get("top_left") == 0 and fi_c.get("diameter") == 1
+    bad = []
+    cands = [f for f in prog.fns.values() if f.body and f.name == "center_2x" and f.impl and prog.impls[f.impl]["self_ty"].get("adt") == S]
+    for f_ in cands + [b]:
+        try:
+            for sm in Pall.of(f_):
+                r = sm.ret
+                comps = r[2] if r[0] == "agg" and len(r[2]) == 2 else None
+                if comps is None or any(nf(comps[i]) is None or nf(comps[i]) != nf(want(i)) for i in (0, 1)):
+                    bad.append("%s::center_2x gives %s" % (f_.path.split("::")[-2], show(canon(r), maxd=5)))
+        except Unsupported as e:
+            bad.append("cannot summarise %s: %s" % (f_.path, e))
+    rep.check(not bad and layout_ok, "R05.1", "sector:center_2x", "Sector::center_2x and Circle::center_2x must both be top_left * 2 + (diameter - 1): %s" % "; ".join(bad[:2]), at=b.span, fn=b.path)
 
 
 def rounded(prog, rep):
